@@ -90,7 +90,7 @@ class G:
                 return N(r.choice(vs))
             if r.random() < 0.08:       # beyond ASCII / longer than the 20 characters a report shows
                 return St(r.choice(["\u00e9", "a\u00f1b", "abcdefghijklmnopqrstuvwxy", "\u65e5\u672c"]))
-            return St(r.choice(["", "a", "ab", "xyz", "5%d", "%"]))
+            return St(r.choice(["", "a", "ab", "xyz", "5%d", "%", 'q"', '"', 'a"b']))
         if c < 0.55:
             return bin_("+", s.eS(ctx, d - 1), s.eS(ctx, d - 1))
         if c < 0.8:
@@ -187,7 +187,10 @@ class G:
             k = r.randint(1, 3)
             ctx["vars"][cv] = "I"
             inner = s.stmts(ctx, d - 1, r.randint(1, 2))
-            return [assign(cv, I(0)), wh(bin_("<", N(cv), I(k)), block([assign(cv, bin_("+", N(cv), I(1)))] + inner))]
+            cond = bin_("<", N(cv), I(k))
+            if r.random() < 0.3:        # a condition that calls (evaluated once more than the body runs)
+                cond = bin_("&", cond, bin_(r.choice(["<", ">=", "!="]), s.eI(ctx, 2), s.eI(ctx, 1)))
+            return [assign(cv, I(0)), wh(cond, block([assign(cv, bin_("+", N(cv), I(1)))] + inner))]
         if c < 0.96:
             ni = 1 if r.random() < 0.75 else 2
             vs = [s.fresh("i") for _ in range(ni)]
@@ -205,6 +208,59 @@ class G:
             return assign(h, fn([p], s.eI(hctx, 2)))
         return s.eI(ctx, 2)
 
+    def define(s, name, kind, np_, gl):
+        """items that bind `name` to a new function of the given kind and arity (pure / gen / mk: a maker and an instance of it)"""
+        r = s.r
+        items = []
+        ps_ = [s.fresh("p") for _ in range(np_)]
+        ctx = {"vars": dict(gl), "infn": True, "isgen": kind == "gen", "calls": True}
+        for p in ps_:
+            ctx["vars"][p] = "I"
+        if kind == "pure":
+            ss = s.stmts(ctx, 2, r.randint(1, 3))
+            fin = s.eI({"vars": {**gl, **{p: "I" for p in ps_}}, "infn": True, "isgen": False, "calls": True}, 2)
+            if r.random() < 0.5:
+                # a local that is assigned only on a path that is not taken reads nil, whatever earlier calls left on the stack
+                u = s.fresh("u")
+                ss.insert(r.randint(0, len(ss)), iff(Bo(False), assign(u, I(7))))
+                fin = bin_("+", fin, un("#", call("toa", N(u))))
+            ss.append(fin)
+            items.append(assign(name, fn(ps_, block(ss))))
+            s.fns[name] = ("pure", np_)
+        elif kind == "gen":
+            items.append(assign(name, fn(ps_, block(s.stmts(ctx, 2, r.randint(2, 4))))))
+            s.fns[name] = ("gen", np_)
+        elif kind == "mk":
+            x = s.fresh("x")
+            inner_kind = r.choice(["gen", "pure"])
+            ictx = {"vars": {**{p: "I" for p in ps_}, x: "I"}, "infn": True, "isgen": inner_kind == "gen", "calls": True}
+            if inner_kind == "gen":
+                inner = fn([], block(s.stmts(ictx, 1, r.randint(2, 3))))
+            else:
+                q = s.fresh("q")
+                ictx["vars"][q] = "I"
+                inner = fn([q], s.eI(ictx, 2))
+            items.append(assign(name, fn(ps_, block([assign(x, s.eI({"vars": {p: "I" for p in ps_}, "infn": True, "isgen": False, "calls": False}, 1)), inner]))))
+            inst = s.fresh("k")
+            items.append(assign(inst, call(name, *[I(r.randint(0, 4)) for _ in ps_])))
+            s.fns[inst] = (inner_kind, 0 if inner_kind == "gen" else 1)
+        else:
+            # function literals nested three deep: the outermost has a local named like a global, the innermost reads that name -- only its
+            # own frame and its definer's frame are visible to a function, so it reads the global; the middle one has variables of its own
+            ig = [g for g, t in gl.items() if t == "I"]
+            shadow = r.choice(ig) if ig else s.fresh("g")
+            y_, q = s.fresh("y"), s.fresh("q")
+            innermost = fn([q], bin_("+", bin_("*", N(shadow), I(2)), bin_("+", N(y_), N(q))))
+            mid = fn([], block([assign(y_, s.eI({"vars": {}, "infn": True, "isgen": False, "calls": False}, 1)), innermost]))
+            pad = [assign(s.fresh("w"), I(r.randint(0, 9))) for _ in range(r.randint(0, 3))]
+            m = s.fresh("m")
+            items.append(assign(name, fn(ps_, block(pad + [assign(shadow, I(r.randint(50, 60))), assign(m, mid), call(m)]))))
+            inst = s.fresh("k")
+            items.append(assign(inst, call(name, *[I(r.randint(0, 4)) for _ in ps_])))
+            if ig:
+                s.fns[inst] = ("pure", 1)
+        return items
+
     def session(s):
         r = s.r
         items = []
@@ -213,49 +269,38 @@ class G:
             v = s.fresh("g")
             items.append(assign(v, s.e(t, {"vars": {}, "infn": False, "isgen": False, "calls": False}, 1)))
             gl[v] = t
+        named = []
         for _ in range(r.randint(1, 4)):
-            kind = r.choice(["pure", "gen", "gen", "mk"])
+            kind = r.choice(["pure", "gen", "gen", "mk", "pure", "gen", "gen", "mk", "mk3"])
             np_ = r.randint(0, 2)
-            ps_ = [s.fresh("p") for _ in range(np_)]
             name = s.fresh("f")
-            ctx = {"vars": dict(gl), "infn": True, "isgen": kind == "gen", "calls": True}
-            for p in ps_:
-                ctx["vars"][p] = "I"
-            if kind == "pure":
-                ss = s.stmts(ctx, 2, r.randint(1, 3))
-                fin = s.eI({"vars": {**gl, **{p: "I" for p in ps_}}, "infn": True, "isgen": False, "calls": True}, 2)
-                if r.random() < 0.5:
-                    # a local that is assigned only on a path that is not taken reads nil, whatever earlier calls left on the stack
-                    u = s.fresh("u")
-                    ss.insert(r.randint(0, len(ss)), iff(Bo(False), assign(u, I(7))))
-                    fin = bin_("+", fin, un("#", call("toa", N(u))))
-                ss.append(fin)
-                items.append(assign(name, fn(ps_, block(ss))))
-                s.fns[name] = ("pure", np_)
-            elif kind == "gen":
-                items.append(assign(name, fn(ps_, block(s.stmts(ctx, 2, r.randint(2, 4))))))
-                s.fns[name] = ("gen", np_)
-            else:
-                x = s.fresh("x")
-                inner_kind = r.choice(["gen", "pure"])
-                ictx = {"vars": {**{p: "I" for p in ps_}, x: "I"}, "infn": True, "isgen": inner_kind == "gen", "calls": True}
-                if inner_kind == "gen":
-                    inner = fn([], block(s.stmts(ictx, 1, r.randint(2, 3))))
-                else:
-                    q = s.fresh("q")
-                    ictx["vars"][q] = "I"
-                    inner = fn([q], s.eI(ictx, 2))
-                items.append(assign(name, fn(ps_, block([assign(x, s.eI({"vars": {p: "I" for p in ps_}, "infn": True, "isgen": False, "calls": False}, 1)), inner]))))
-                inst = s.fresh("k")
-                items.append(assign(inst, call(name, *[I(r.randint(0, 4)) for _ in ps_])))
-                s.fns[inst] = (inner_kind, 0 if inner_kind == "gen" else 1)
+            items += s.define(name, kind, np_, gl)
+            if kind in ("pure", "gen"):
+                named.append((name, kind, np_))
         top = {"vars": dict(gl), "infn": False, "isgen": False, "calls": True}
+        tops = []
         for _ in range(r.randint(2, 5)):
             x = s.stmt(top, 2)
             if isinstance(x, list):
-                items.extend(x)
+                tops.extend(x)
             else:
-                items.append(x)
+                tops.append(x)
+        if r.random() < 0.25:
+            # values read from standard input, kept while more is read; the same call written twice in one expression
+            s.stdin = ["l%d%s\n" % (i, "x" * r.choice([0, 3, 70])) for i in range(8)]
+            ra, rb = s.fresh("v"), s.fresh("v")
+            tops += [assign(ra, call("read")), assign(rb, bin_("+", bin_("+", call("read"), call("read")), St("|"))), lst([N(ra), N(rb), call("read")]), N(ra)]
+        items += tops
+        if named and r.random() < 0.4:
+            # the same statements again after functions they call were bound anew (same kind and arity, another body) and globals reassigned
+            for name, kind, np_ in r.sample(named, min(len(named), r.randint(1, 2))):
+                saved = s.fns
+                order = list(saved)
+                s.fns = {k: saved[k] for k in order[:order.index(name)]}        # the new body may call only what was defined before the name first was: no recursion
+                items += s.define(name, kind, np_, gl)
+                s.fns = saved
+            again = [x for x in tops if not any(n["t"] == "call" and n["name"].get("n") == "read" for n in walk(x))]
+            items += again
         for g in list(gl)[:3]:
             items.append(N(g))
         return items
@@ -265,7 +310,8 @@ def random_sessions(n, seed, tag, p_ill=0.0, first_id=1):
     out = []
     for i in range(n):
         g = G(seed * 1000003 + i * 7919 + sum(ord(c) for c in tag), p_ill)
-        out.append({"id": first_id + i, "items": g.session(), "stdin": [], "meta": {"family": tag, "index": i}})
+        items = g.session()
+        out.append({"id": first_id + i, "items": items, "stdin": list(getattr(g, "stdin", [])), "meta": {"family": tag, "index": i}})
     return out
 
 
